@@ -35,6 +35,18 @@ type World struct {
 	OnMsg func(n *FNode, sub *SubRec, from peer.ID, data []byte)
 	// OnScriptRecv is called for every Publish message a scripted peer receives.
 	OnScriptRecv func(sc *Script, m *peer.SignedMsg)
+	// AnnLog is every subscription announcement any scripted peer read, in read order
+	// (over all of its streams: which of two streams re-opened under one tuple the router
+	// treats as current is the router's business).
+	AnnLog []Ann
+}
+
+// Ann is one subscription announcement as read by a scripted peer.
+type Ann struct {
+	Peer      string
+	Conn      string
+	Channel   string
+	Subscribe bool
 }
 
 // FNode is one real FloodSub router.
@@ -236,6 +248,10 @@ func (sc *Script) readLoop() {
 			return
 		}
 		sc.Subs = append(sc.Subs, pkt.GetSubscriptions()...)
+		for _, so := range pkt.GetSubscriptions() {
+			sc.W.AnnLog = append(sc.W.AnnLog, Ann{Peer: sc.Name, Conn: sc.End.C.Name, Channel: so.GetChannelId(), Subscribe: so.GetSubscribe()})
+			sc.W.S.Logf("peer %s reads announcement on %s: %s subscribe=%v", sc.Name, sc.End.C.Name, so.GetChannelId(), so.GetSubscribe())
+		}
 		for _, m := range pkt.GetPublish() {
 			sc.Pubs = append(sc.Pubs, m)
 			if sc.W.OnScriptRecv != nil {
